@@ -109,7 +109,35 @@ def decomp_facts(v):
     rest = sym.sub(val, fa[0])
     e = bits.pow2_exp(sym.neg(rest)) if rest != ZERO else None
     adds = [t for t in touch if t["op"] == "+="]
-    return {"balanced": e is not None and e == sym.sub(B, I(1)) and len(adds) == 1}
+    shape = e is not None and e == sym.sub(B, I(1)) and len(adds) == 1
+    if not shape:
+        # another arrangement of the decomposition (offset added to a local copy, digits peeled from the low end, ...): whether its
+        # digits are balanced is what C12.R9 decides by evaluating the function on small layouts (digit range [-Bg/2, Bg/2))
+        class _Rec:
+            out = None
+
+            def proved(self, *a_, **k_):
+                self.out = self.out or "proved"
+
+            def refuted(self, *a_, **k_):
+                self.out = "refuted"
+
+            def note(self, *a_, **k_):
+                pass
+
+            def vcount(self, *a_, **k_):
+                pass
+
+            def broken(self, msg):
+                from sa.pipeline import AnalysisBroken
+                raise AnalysisBroken(msg)
+        rec = _Rec()
+        c12.check_by_evaluation(rec, v, c12.FN)
+        if rec.out == "proved":
+            return {"balanced": True}
+        if rec.out is None:
+            return None                     # this variant's path is not evaluated and its shape is not the known one
+    return {"balanced": bool(shape)}
 
 
 def run(chk):
